@@ -5,7 +5,6 @@
    returned by Write::write). *)
 From Cam Require Export Outcome Bytes Chunks.
 
-Definition E_BUFFER_IO : Z := 11.
 
 Definition MAGIC : Z := 0x43563355.
 Definition FLAG_REQUEST_ACK : Z := 2 ^ 14.
